@@ -367,6 +367,27 @@ class C13(Check):
                                 o['fault'] = {'kind': 'intr', 'at_call': rng.randint(1, 1400), 'genmodule': fk == 'genmodule'}
                         ops.append(o)
                     kind = 'twin'
+                rcands = [(fi, oi) for fi, fl in enumerate(flows[:K]) for oi, o in enumerate(fl)
+                          if o['op'] == 'run' and not o.get('fault') and not o.get('input')]
+                if kind != 'twin' and rcands and rng.random() < 0.5:
+                    # TWIN RUN: the failing user runs exactly what another workflow runs (same model, same options -> same
+                    # generated source) through a decorator whose wrapped function fails at evaluation k; whatever that
+                    # leaves behind must not reach the healthy run
+                    fi, oi = rng.choice(rcands)
+                    wid = 10 + f
+                    pre = [o for o in flows[fi][:oi] if o['op'] in ('construct', 'update_var')]
+                    last_c = max(i for i, o in enumerate(pre) if o['op'] == 'construct')
+                    ops = []
+                    for o in pre[last_c:] + [flows[fi][oi]]:
+                        o = copy.deepcopy(o)
+                        o['wf'] = wid
+                        o['obj'] = f'M{wid}'
+                        if o['op'] == 'construct':
+                            o['fname'] = f'm_w{wid}'
+                        if o['op'] == 'run':
+                            o['fault'] = {'kind': 'rhs', 'at_eval': rng.randint(0, 3)}
+                        ops.append(o)
+                    kind = 'twin'
                 ycands = [(fi, oi) for fi, fl in enumerate(flows[:K]) for oi, o in enumerate(fl)
                           if o['op'] == 'construct' and o['spec'].get('build') == 'yaml']
                 if kind != 'twin' and ycands and rng.random() < 0.5:
